@@ -1,7 +1,7 @@
 (* C04 — Connection filtering rules: first match wins, fail closed, enforced early. *)
 From Coq Require Import List NArith Bool.
 From TT Require Import Lib.BytesL Model.ConnectPolicy Model.Rules Spec.RulesDoc Generated.RulesFacts
-  Proofs.RulesProofs.
+  Proofs.RulesProofs Model.TlsDemux Model.FrontDoor Proofs.FrontDoorProofs.
 Import ListNotations.
 Open Scope N_scope.
 
@@ -55,6 +55,22 @@ Theorem rules_enforced_early :
   /\ RULES_GET_SOCKET_PEER = true.
 Proof. repeat split; exact eq_refl. Qed.
 Print Assumptions rules_enforced_early.
+
+(* ... and in the composition with the demultiplexer and the handshake (Model/FrontDoor.v, the order taken
+   from the regenerated facts): a connection the rules deny never gets its handshake answered, whatever
+   hosts are configured, and what happens to it does not depend on the hosts configuration at all *)
+Theorem denied_connection_is_never_answered :
+  forall rules c peer h,
+    connection_verdict RULES_ON_CANONICAL_PEER rules peer (h_random h) = Deny ->
+    answered_handshake (front_tcp RULES_ON_CANONICAL_PEER RULES_DENY_DROPS RULES_BEFORE_TLS_ACCEPT rules c peer h) = false
+    /\ forall c2, front_tcp RULES_ON_CANONICAL_PEER RULES_DENY_DROPS RULES_BEFORE_TLS_ACCEPT rules c peer h
+                  = front_tcp RULES_ON_CANONICAL_PEER RULES_DENY_DROPS RULES_BEFORE_TLS_ACCEPT rules c2 peer h.
+Proof.
+  intros rules c peer h D. split.
+  - exact (denied_never_served RULES_ON_CANONICAL_PEER rules c peer h D RULES_BEFORE_TLS_ACCEPT).
+  - intros c2. exact (denied_outcome_independent_of_hosts RULES_ON_CANONICAL_PEER rules peer h c c2 D).
+Qed.
+Print Assumptions denied_connection_is_never_answered.
 
 (* without canonicalisation the property fails (the repaired defect) *)
 Example mapped_peer_escaped_v4_cidr :
